@@ -5,9 +5,13 @@ Observe: DBNInference(dbn).forward_inference / backward_inference / query return
 Oracle : the template *spec* is unrolled by the checker: slice-0 CPDs at t = 0, slice-1 CPDs shifted to
          t = 1..T.  Reference marginals come from an own forward-backward recursion over slice-state
          vectors (alpha/beta), cross-checked against the brute-force joint of the unrolled network
-         (oracle.joint_table) whenever that joint has <= 20000 cells.
+         (oracle.joint_table) on up to two queries per case whose unrolled joint has <= 6000 cells.
+Known-defect shapes are recognised by structural classifiers (call_predicates, check_completion, ...); a wrong
+multi-slice answer is re-queried slice by slice, a named-evidence failure is re-run with default labels, and
+anything the classifiers cannot attribute keeps a generic key (c17:wrong-marginal, c17:exception:...).
 """
 import itertools
+import os
 
 import numpy as np
 
@@ -17,6 +21,9 @@ PLAN = {
     "quick": {"cases": 900, "hashseeds": 3, "shards": 5, "timeout": 600, "min_nontrivial": 300},
     "thorough": {"cases": 6000, "hashseeds": 8, "shards": 2, "timeout": 3000, "min_nontrivial": 2000},
 }
+if os.environ.get("RV_C17_THOROUGH_CASES"):        # smoke-testing the thorough tier with fewer cases
+    PLAN["thorough"]["cases"] = int(os.environ["RV_C17_THOROUGH_CASES"])
+    PLAN["thorough"]["min_nontrivial"] = PLAN["thorough"]["cases"] // 3
 RULE = ("one random 2-TBN template per case (kinds: hmm, random 2-3 variables, two interface nodes, inter-slice edge to "
         "another variable, variable without intra-slice edge, 4 (thorough: also 5) variables; cards 2-3 (2-4 thorough); 1-4 interface "
         "nodes; zeros / deterministic columns in 30%; string state names in 20%; shuffled edge, CPD and parent order) "
